@@ -41,14 +41,21 @@ type ask struct {
 // recorder implements api.RBACChecker with the policy "the caller may read database
 // db1 (every measurement) and nothing else"; it logs every question.
 type recorder struct {
-	mu  sync.Mutex
-	log []ask
+	mu      sync.Mutex
+	log     []ask
+	allowed string // database the caller may read; "" = allowedDB (only the cross-caller family changes it)
 }
 
 func (r *recorder) IsRBACEnabled() bool { return true }
 
 func (r *recorder) decide(req *auth.PermissionCheckRequest) *auth.PermissionCheckResult {
-	ok := req != nil && req.TokenInfo != nil && req.Database == allowedDB && req.Permission == "read"
+	r.mu.Lock()
+	adb := r.allowed
+	r.mu.Unlock()
+	if adb == "" {
+		adb = allowedDB
+	}
+	ok := req != nil && req.TokenInfo != nil && req.Database == adb && req.Permission == "read"
 	r.mu.Lock()
 	if req != nil {
 		// the handler's strings may alias the request buffer (fasthttp): copy them
